@@ -102,7 +102,16 @@ func init() {
 			if i == 0 {
 				name = "all"
 			}
-			results = append(results, conc.RunComposition(name, *seed*100+int64(i), 2+i%7, *per, *f8))
+			// a composition of stock nodes whose Sends / control calls never come back is a verdict, not a hang of the recorder
+			rc := make(chan conc.CompResult, 1)
+			go func() { rc <- conc.RunComposition(name, *seed*100+int64(i), 2+i%7, *per, *f8) }()
+			select {
+			case r := <-rc:
+				results = append(results, r)
+			case <-time.After(240 * time.Second):
+				results = append(results, conc.CompResult{Name: name, Problems: []conc.Problem{{Prop: "C19", What: "composition " + name + " did not finish within 240 s: Sends or control calls (Reopen, Rotate, FlushAll) through stock nodes never returned"}}})
+				i = *n // leaked goroutines hold locks: stop here
+			}
 		}
 		if !*f8 {
 			results = append(results, conc.GatedStress(*seed, 300*time.Millisecond))
